@@ -107,6 +107,22 @@ class T12(Translator):
                     and env.get("left") == "num" and env.get("right") == "num":
                 self.preconditions.append("not both operands are ints")
                 return self.block(rest, env, k)
+            if isinstance(s, ast.Try) and self.cfg.ret == "fres":
+                # try: float(a), float(b)   except OverflowError: return None    (the body only converts, then falls through)
+                h = s.handlers[0] if len(s.handlers) == 1 else None
+                b = s.body[0] if len(s.body) == 1 else None
+                if (h is not None and not s.orelse and not s.finalbody and isinstance(b, ast.Expr)
+                        and isinstance(h.type, ast.Name) and h.type.id == "OverflowError" and h.name is None
+                        and len(h.body) == 1 and isinstance(h.body[0], ast.Return)
+                        and (h.body[0].value is None or (isinstance(h.body[0].value, ast.Constant) and h.body[0].value.value is None))):
+                    elts = b.value.elts if isinstance(b.value, ast.Tuple) else [b.value]
+                    names = []
+                    for c in elts:
+                        if not (isinstance(c, ast.Call) and isinstance(c.func, ast.Name) and c.func.id == "float" and len(c.args) == 1
+                                and not c.keywords and isinstance(c.args[0], ast.Name) and env.get(c.args[0].id) == "num"):
+                            raise fail(s, "try body is not a tuple of float(<number>) conversions")
+                        names.append(c.args[0].id)
+                    return f"(try_float_conversions fo [{'; '.join(names)}]\n {self.block(rest, env, k)})"
             if isinstance(s, ast.If):
                 st = self.static_truth(s.test, env)
                 if st is False:
